@@ -49,10 +49,13 @@ namespace AIToolbox {
                 sum += v[i];
             }
         }
-        if (checkEqualSmall(sum, 1.0)) return retval;
-        if (checkEqualSmall(sum, 0.0)) {
+        if (checkEqualSmall(sum, 1.0)) {
+            // Already a probability once negatives are clipped: retval holds
+            // the 0/1 mask of the non-negative entries, so this keeps them.
+            retval.array() *= v.array();
+        } else if (checkEqualSmall(sum, 0.0)) {
             // Any solution here would do, but this seems nice.
-            retval.array() += 1.0 / v.size();
+            retval.fill(1.0 / v.size());
         } else if (sum > 1.0) {
             // We normalize the vector.
             retval.array() *= v.array() / sum;
